@@ -17,6 +17,11 @@ theorem tgen_bits :
 
 theorem C01_tgen_get_ops :
     op_dbget_version_eq = "==" ∧ op_dbget_max = "<" ∧ op_lcget_max = "<" ∧ op_lhget_max = "<" := by decide
+/-- the read path scans *every* memtable and level (no early `break`; the only early `return` is the
+    exact-version hit), which is what `Lsm.get`'s fold over all sources mirrors -/
+theorem C01_tgen_get_shape :
+    n_break_lcget = 0 ∧ n_return_lcget = 4 ∧ n_break_dbget = 0 ∧ n_return_dbget = 3 ∧
+    n_break_lhget = 0 ∧ n_return_lhget = 1 := by decide
 theorem C01_tgen_bits : Extracted.bitDelete = Badger.bitDelete := by decide
 
 theorem C12_tgen_filter_ops :
